@@ -4,11 +4,15 @@ import (
 	"context"
 	"fmt"
 	"io"
+	"strings"
 
 	"google.golang.org/grpc"
 	"google.golang.org/grpc/codes"
 	"google.golang.org/grpc/metadata"
+	"google.golang.org/grpc/stats"
 	"google.golang.org/grpc/status"
+
+	goat "github.com/avos-io/goat"
 
 	"github.com/avos-io/goat/vh/env"
 	"github.com/avos-io/goat/vrt/explore"
@@ -162,11 +166,139 @@ func handlerSeq(prop string, first byte, maxLen, bound int) *explore.Scenario {
 	}
 }
 
+// unaryHandlerSeq: every sequence (up to a length) of the metadata operations a
+// UNARY handler may perform through its context - h grpc.SendHeader,
+// H grpc.SetHeader, t grpc.SetTrailer - followed by returning a reply or an
+// error; the caller collects headers and trailers with the grpc.Header /
+// grpc.Trailer call options. Oracles: C04 (exactly what the accepted calls set;
+// calls after the headers left are refused AND leave no trace), C03, C06, C14.
+func unaryHandlerSeq(prop string, first byte, maxLen int) *explore.Scenario {
+	return &explore.Scenario{
+		Name:   fmt.Sprintf("%s/unary-handler-seq/first=%c/len<=%d", prop, first, maxLen),
+		Family: prop + "/handler-seq", Prop: prop, Bound: 0, MaxExecs: 3000000,
+		Run: func() {
+			w := env.NewWorld()
+			env.MsgSize = 0
+			// (goat's Invoke takes no call options: what a unary caller can see of response
+			// headers and trailers is what its stats handler is shown)
+			sh := &mdStats{}
+			d := env.NewDirect(w, env.DirectOpts{Pipe: env.PipeOpts{Cap: 64}, DialOpts: []goat.DialOption{goat.WithStatsHandler(sh)}})
+			vsched.Settle()
+			idle := c14State(d)
+			w.Rec("u", "Unary")
+			seq := ""
+			var wantHdr, wantTrl []metadata.MD
+			hdrLeft := false
+			var retErr error
+			w.Unaries["u"] = func(r *env.Rec, ctx context.Context, in string) (string, error) {
+				for pos := 0; pos < maxLen; pos++ {
+					op := first
+					if pos > 0 {
+						alphabet := "hHt"
+						c := vsched.Choose(len(alphabet) + 1)
+						if c == len(alphabet) {
+							break
+						}
+						op = alphabet[c]
+					}
+					seq += string(op)
+					md := metadata.MD{fmt.Sprintf("k%d", pos): {fmt.Sprintf("v%d", pos)}, "shared": {fmt.Sprintf("p%d", pos)}}
+					switch op {
+					case 'h':
+						if err := grpc.SendHeader(ctx, md); err == nil {
+							if hdrLeft {
+								vsched.Fail("C04/handler-seq|sendheader-twice-ok", "unary handler ops %s: SendHeader succeeded although headers had already been sent", seq)
+							}
+							wantHdr = append(wantHdr, md)
+							hdrLeft = true
+						} else if !hdrLeft {
+							vsched.Fail("C04/handler-seq|sendheader-failed", "unary handler ops %s: SendHeader failed: %v", seq, err)
+						}
+					case 'H':
+						if err := grpc.SetHeader(ctx, md); err == nil {
+							if hdrLeft {
+								vsched.Fail("C04/handler-seq|setheader-late-ok", "unary handler ops %s: SetHeader succeeded although headers had already been sent", seq)
+							}
+							wantHdr = append(wantHdr, md)
+						}
+					case 't':
+						if err := grpc.SetTrailer(ctx, md); err == nil {
+							wantTrl = append(wantTrl, md)
+						}
+					}
+				}
+				if vsched.Choose(2) == 1 {
+					retErr = status.Error(codes.OutOfRange, "handler failed")
+					seq += "!"
+				}
+				return "rep", retErr
+			}
+			out := new(env.Msg)
+			err := d.CC.Invoke(context.Background(), env.MUnary, env.S("u|x"), out)
+			vsched.Quiesce()
+			hdr := sh.hdr
+			// (no API shows a unary caller the trailers: judge what arrives for it on the wire)
+			trl := metadata.MD{}
+			for _, e := range d.Tap.Events {
+				if e.Dir == "b2a" && e.Rpc.GetTrailer() != nil {
+					for _, kv := range e.Rpc.GetTrailer().GetMetadata() {
+						trl[strings.ToLower(kv.Key)] = append(trl[strings.ToLower(kv.Key)], kv.Value)
+					}
+				}
+			}
+			if sh.nHdr > 1 || sh.nTrl > 1 {
+				vsched.Fail("C04/handler-seq|response-header", "unary handler ops %s: the caller's stats handler saw %d InHeader and %d InTrailer events", seq, sh.nHdr, sh.nTrl)
+			}
+			vsched.Obs("unary handler ops=%s err=%s hdr=%v trl=%v", seq, env.ErrStr(err), hdr, trl)
+			fam := "/handler-seq|"
+			if retErr == nil && (err != nil || string(out.Value) != "rep") {
+				vsched.Fail("C03"+fam+"success-as-failure", "unary handler ops %s: handler returned a reply, caller saw err=%v reply=%q", seq, err, out.Value)
+			}
+			if retErr != nil && (status.Code(err) != codes.OutOfRange || status.Convert(err).Message() != "handler failed") {
+				vsched.Fail("C03"+fam+"status", "unary handler ops %s: handler returned OutOfRange, caller saw %s", seq, env.ErrStr(err))
+			}
+			if msg := wantOf(wantHdr...).check(hdr, nil); msg != "" {
+				vsched.Fail("C04"+fam+"response-header", "unary handler ops %s (failed=%v): grpc.Header(): %s", seq, retErr != nil, msg)
+			}
+			if msg := wantOf(wantTrl...).check(trl, nil); msg != "" {
+				vsched.Fail("C04"+fam+"response-trailer", "unary handler ops %s (failed=%v): grpc.Trailer(): %s", seq, retErr != nil, msg)
+			}
+			if st := c14State(d); st != idle {
+				vsched.Fail("C14"+fam+"not-idle:"+diffKey(idle, st), "unary handler ops %s: the connection did not return to its idle state:\n%s", seq, diffStates(idle, st))
+			}
+			finishDirect(d, w, true)
+		},
+	}
+}
+
+// mdStats records the response metadata a client stats handler is shown.
+type mdStats struct {
+	hdr, trl   metadata.MD
+	nHdr, nTrl int
+}
+
+func (s *mdStats) TagRPC(ctx context.Context, _ *stats.RPCTagInfo) context.Context { return ctx }
+func (s *mdStats) HandleRPC(ctx context.Context, st stats.RPCStats) {
+	switch e := st.(type) {
+	case *stats.InHeader:
+		s.hdr = e.Header
+		s.nHdr++
+	case *stats.InTrailer:
+		s.trl = e.Trailer
+		s.nTrl++
+	}
+}
+func (s *mdStats) TagConn(ctx context.Context, _ *stats.ConnTagInfo) context.Context { return ctx }
+func (s *mdStats) HandleConn(context.Context, stats.ConnStats)                       {}
+
 func handlerSeqs(prop, tier string) []*explore.Scenario {
 	var out []*explore.Scenario
 	maxLen := 4
 	if tier == "thorough" {
 		maxLen = 5
+	}
+	for _, f := range []byte("hHt") {
+		out = append(out, unaryHandlerSeq(prop, f, maxLen+1))
 	}
 	for _, f := range []byte("rshHt") {
 		out = append(out, handlerSeq(prop, f, maxLen, 0))
